@@ -410,6 +410,447 @@ theorem wwh_mask_roundtrip (c : DtcCfg) (e fg av sav fmt : UInt8) (rs : List Dtc
     fmt, by simp [idx, pure, Except.pure], (), by simp; omega, (), by rcases hfmt with h | h <;> simp [h], rs, ?_, rfl⟩
   simpa using wwh_loop_roundtrip c.tol c.ign rs [] hr
 
+/-! ### snapshot records (sub-functions 04, 18: by DTC number; 05: by record number) -/
+
+/-- one DataIdentifier of a snapshot record: the identifier on `k` bytes, then its data -/
+def encSnapDid (k : Nat) (s : Snap) : Bytes := toBE k (s.did.getD 0) ++ s.raw
+
+def encSnapDids (k : Nat) : List Snap → Bytes
+  | [] => []
+  | s :: rest => encSnapDid k s ++ encSnapDids k rest
+
+/-- a snapshot entry as the parser builds it: record number `rec`, an identifier that fits `k` bytes and whose configured codec has the length of the data -/
+def SnapOk (cfg : Option DidCfg) (k rec : Nat) (s : Snap) : Prop :=
+  s.record = rec ∧ ∃ d, s.did = some d ∧ d < 256 ^ k ∧ ∃ c, checkDidConfig cfg [d] = .ok c ∧ fetchCodec c d = .ok (some s.raw.length)
+
+theorem snapDids_roundtrip (cfg : Option DidCfg) (k rec : Nat) (l : List Snap) (tail : Bytes) (acc : List Snap) (h : ∀ s ∈ l, SnapOk cfg k rec s) :
+    snapDids cfg k rec l.length (encSnapDids k l ++ tail) acc = .ok (acc ++ l, tail) := by
+  induction l generalizing acc with
+  | nil => simp [snapDids, encSnapDids, pure, Except.pure]
+  | cons s rest ih =>
+    obtain ⟨hrec, d, hd, hlt, c, hc, hf⟩ := h s (by simp)
+    have hlen : ¬ (encSnapDids k (s :: rest) ++ tail).length < k := by simp [encSnapDids, encSnapDid]
+    have htake : (encSnapDids k (s :: rest) ++ tail).take k = toBE k d := by
+      simp only [encSnapDids, encSnapDid, hd, Option.getD_some, List.append_assoc]
+      rw [List.take_append_of_le_length (by simp)]; exact List.take_of_length_le (by simp)
+    have hdrop : (encSnapDids k (s :: rest) ++ tail).drop k = s.raw ++ (encSnapDids k rest ++ tail) := by
+      simp only [encSnapDids, encSnapDid, hd, Option.getD_some, List.append_assoc]
+      rw [List.drop_append_of_le_length (by simp)]; simp [List.drop_of_length_le]
+    simp only [List.length_cons, snapDids, bind_ok, guardPy_ok]
+    refine ⟨(), by simpa using hlen, c, by rw [htake, fromBE_toBE_of_lt hlt]; exact hc, some s.raw.length, by rw [htake, fromBE_toBE_of_lt hlt]; exact hf, ?_⟩
+    simp only [hdrop, htake, fromBE_toBE_of_lt hlt]
+    have h1 : ¬ (s.raw ++ (encSnapDids k rest ++ tail)).length < s.raw.length := by simp
+    rw [if_neg h1]
+    have h2 : (s.raw ++ (encSnapDids k rest ++ tail)).take s.raw.length = s.raw := by simp
+    have h3 : (s.raw ++ (encSnapDids k rest ++ tail)).drop s.raw.length = encSnapDids k rest ++ tail := by simp
+    rw [h2, h3, ih _ (fun x hx => h x (by simp [hx]))]
+    have : ({ record := rec, did := some d, raw := s.raw } : Snap) = s := by cases s; simp_all
+    rw [this]; simp
+
+/-- snapshot records of one DTC: record number, number of identifiers, the identifiers -/
+def encSnapGroups (k : Nat) : List (Nat × List Snap) → Bytes
+  | [] => []
+  | (rec, l) :: rest => [UInt8.ofNat rec, UInt8.ofNat l.length] ++ encSnapDids k l ++ encSnapGroups k rest
+
+def GroupOk (c : DtcCfg) (g : Nat × List Snap) : Prop :=
+  g.1 < 256 ∧ 1 ≤ g.2.length ∧ g.2.length < 256 ∧ ∀ s ∈ g.2, SnapOk c.dids c.didSize g.1 s
+
+theorem encSnapDids_length_ge (k : Nat) (l : List Snap) (h : 1 ≤ l.length) : k ≤ (encSnapDids k l).length := by
+  cases l with
+  | nil => simp at h
+  | cons s rest => simp [encSnapDids, encSnapDid]
+
+theorem allZero_cons_ne {b : UInt8} {l : Bytes} (h : b ≠ 0) (a : UInt8) : allZero (a :: b :: l) = false := by
+  simp [allZero, h]
+
+theorem snapByDtc_loop_roundtrip (c : DtcCfg) (gs : List (Nat × List Snap)) (acc : List Snap) (h : ∀ g ∈ gs, GroupOk c g) :
+    snapByDtcLoop c (encSnapGroups c.didSize gs) acc = .ok (acc ++ (gs.map (·.2)).flatten) := by
+  induction gs generalizing acc with
+  | nil => rw [snapByDtcLoop]; simp [encSnapGroups, pure, Except.pure]
+  | cons g rest ih =>
+    obtain ⟨rec, l⟩ := g
+    obtain ⟨hr, hl1, hl2, hs⟩ := h (rec, l) (by simp)
+    simp only at hr hl1 hl2 hs
+    have hn0 : UInt8.ofNat l.length ≠ 0 := by
+      intro h0
+      have := congrArg UInt8.toNat h0
+      rw [toNat_ofNat_lt hl2] at this
+      have : l.length = 0 := this
+      omega
+    rw [snapByDtcLoop]
+    have hlen0 : ¬ (encSnapGroups c.didSize ((rec, l) :: rest)).length = 0 := by simp [encSnapGroups]
+    have hz : (c.tol && allZero (encSnapGroups c.didSize ((rec, l) :: rest))) = false := by
+      simp only [encSnapGroups, List.cons_append, List.nil_append, List.append_assoc]
+      rw [allZero_cons_ne hn0]; simp
+    have hlen2 : ¬ (encSnapGroups c.didSize ((rec, l) :: rest)).length < 2 := by simp [encSnapGroups]
+    rw [dif_neg hlen0]
+    simp only [hz, Bool.false_eq_true, if_false]
+    rw [dif_neg hlen2]
+    have i0 : idx (encSnapGroups c.didSize ((rec, l) :: rest)) 0 = .ok (UInt8.ofNat rec) := by simp [encSnapGroups, idx, pure, Except.pure]
+    have i1 : idx (encSnapGroups c.didSize ((rec, l) :: rest)) 1 = .ok (UInt8.ofNat l.length) := by simp [encSnapGroups, idx, pure, Except.pure]
+    have hnz : (l.length == 0) = false := by simpa using (show l.length ≠ 0 by omega)
+    have hge := encSnapDids_length_ge c.didSize l hl1
+    have hlenk : ¬ (encSnapGroups c.didSize ((rec, l) :: rest)).length < 2 + c.didSize := by
+      simp only [encSnapGroups, List.cons_append, List.nil_append, List.append_assoc, List.length_cons, List.length_append]; omega
+    have hdrop : (encSnapGroups c.didSize ((rec, l) :: rest)).drop 2 = encSnapDids c.didSize l ++ encSnapGroups c.didSize rest := by
+      simp [encSnapGroups]
+    simp only [i0, i1, bind, Except.bind, toNat_ofNat_lt hr, toNat_ofNat_lt hl2, hnz, Bool.false_eq_true, if_false, hlenk, hdrop,
+      snapDids_roundtrip c.dids c.didSize rec l (encSnapGroups c.didSize rest) acc hs]
+    have hshort : (encSnapGroups c.didSize rest).length < (encSnapGroups c.didSize ((rec, l) :: rest)).length := by
+      simp only [encSnapGroups, List.cons_append, List.nil_append, List.append_assoc, List.length_cons, List.length_append]; omega
+    rw [if_pos hshort, ih _ (fun g hg => h g (by simp [hg]))]
+    simp
+
+theorem idx_cons0' (b : UInt8) (l : Bytes) : idx (b :: l) 0 = .ok b := by simp [idx, pure, Except.pure]
+theorem idx_cons1' (a b : UInt8) (l : Bytes) : idx (a :: b :: l) 1 = .ok b := by simp [idx, pure, Except.pure]
+
+/-- **snapshot by DTC number (0x04)**: any number of records, each with any number of identifiers, comes back as encoded -/
+theorem snapByDtc_roundtrip (c : DtcCfg) (sf : Nat) (e st : UInt8) (id : Nat) (gs : List (Nat × List Snap)) (hms : hasMemSel sf = false)
+    (hid : id < 2 ^ 24) (hk : 1 ≤ c.didSize ∧ c.didSize ≤ 8) (h : ∀ g ∈ gs, GroupOk c g) :
+    snapByDtcInterpret c sf (e :: (toBE 3 id ++ st :: encSnapGroups c.didSize gs)) =
+      .ok { sfEcho := e.toNat, count := 1, dtcs := [{ id := id, status := st.toNat, snaps := (gs.map (·.2)).flatten }] } := by
+  have hdrop1 : (e :: (toBE 3 id ++ st :: encSnapGroups c.didSize gs)).drop 1 = toBE 3 id ++ st :: encSnapGroups c.didSize gs := rfl
+  have hbe : be3 (toBE 3 id ++ st :: encSnapGroups c.didSize gs) = id := be3_toBE id _ hid
+  have hst : idx (e :: (toBE 3 id ++ st :: encSnapGroups c.didSize gs)) 4 = .ok st := by simp [idx, toBE, pure, Except.pure]
+  have hd5 : (e :: (toBE 3 id ++ st :: encSnapGroups c.didSize gs)).drop 5 = encSnapGroups c.didSize gs := by simp [toBE]
+  simp only [snapByDtcInterpret, hms, Bool.false_eq_true, if_false, bind_ok, guardPy_ok, pure_ok, optByte]
+  refine ⟨e, idx_cons0' _ _, (), (by simp only [List.length_cons, List.length_append, toBE_length]; simp; omega), none, rfl, st, hst, (),
+    (by simp; omega), (gs.map (·.2)).flatten, ?_, ?_⟩
+  · rw [hd5]; simpa using snapByDtc_loop_roundtrip c gs [] h
+  · rw [hdrop1, hbe]
+
+/-- **user-defined-memory snapshot by DTC number (0x18)**: the same with the MemorySelection echo -/
+theorem snapByDtc_roundtrip_memsel (c : DtcCfg) (sf : Nat) (e ms st : UInt8) (id : Nat) (gs : List (Nat × List Snap)) (hms : hasMemSel sf = true)
+    (hid : id < 2 ^ 24) (hk : 1 ≤ c.didSize ∧ c.didSize ≤ 8) (h : ∀ g ∈ gs, GroupOk c g) :
+    snapByDtcInterpret c sf (e :: ms :: (toBE 3 id ++ st :: encSnapGroups c.didSize gs)) =
+      .ok { sfEcho := e.toNat, memSel := some ms.toNat, count := 1, dtcs := [{ id := id, status := st.toNat, snaps := (gs.map (·.2)).flatten }] } := by
+  have hdrop2 : (e :: ms :: (toBE 3 id ++ st :: encSnapGroups c.didSize gs)).drop 2 = toBE 3 id ++ st :: encSnapGroups c.didSize gs := rfl
+  have hbe : be3 (toBE 3 id ++ st :: encSnapGroups c.didSize gs) = id := be3_toBE id _ hid
+  have hst : idx (e :: ms :: (toBE 3 id ++ st :: encSnapGroups c.didSize gs)) 5 = .ok st := by simp [idx, toBE, pure, Except.pure]
+  have hd6 : (e :: ms :: (toBE 3 id ++ st :: encSnapGroups c.didSize gs)).drop 6 = encSnapGroups c.didSize gs := by simp [toBE]
+  simp only [snapByDtcInterpret, hms, if_true, bind_ok, guardPy_ok, pure_ok, optByte]
+  refine ⟨e, idx_cons0' _ _, (), (by simp only [List.length_cons, List.length_append, toBE_length]; simp; omega), some ms.toNat, ⟨ms, idx_cons1' _ _ _, rfl⟩, st, hst, (),
+    (by simp; omega), (gs.map (·.2)).flatten, ?_, ?_⟩
+  · rw [hd6]; simpa using snapByDtc_loop_roundtrip c gs [] h
+  · rw [hdrop2, hbe]
+
+/-- one record of sub-function 0x05: record number, DTC, status, number of identifiers, the identifiers -/
+def encSnapRec (k : Nat) (p : Nat × DtcRec) : Bytes :=
+  [UInt8.ofNat p.1] ++ toBE 3 p.2.id ++ [UInt8.ofNat p.2.status, UInt8.ofNat p.2.snaps.length] ++ encSnapDids k p.2.snaps
+
+def encSnapRecs (k : Nat) : List (Nat × DtcRec) → Bytes
+  | [] => []
+  | p :: rest => encSnapRec k p ++ encSnapRecs k rest
+
+def SnapRecOk (c : DtcCfg) (p : Nat × DtcRec) : Prop :=
+  p.1 < 256 ∧ p.2.id < 2 ^ 24 ∧ p.2.status < 256 ∧ 1 ≤ p.2.snaps.length ∧ p.2.snaps.length < 256 ∧
+  (∀ s ∈ p.2.snaps, SnapOk c.dids c.didSize p.1 s) ∧ (c.tol = false ∨ allZero (encSnapDids c.didSize p.2.snaps) = false) ∧
+  p.2.severity = 0 ∧ p.2.funit = none ∧ p.2.fault = none ∧ p.2.ext = []
+
+theorem snapByRecord_loop_roundtrip (c : DtcCfg) (ps : List (Nat × DtcRec)) (acc : List DtcRec) (h : ∀ p ∈ ps, SnapRecOk c p) :
+    snapByRecordLoop c (encSnapRecs c.didSize ps) acc = .ok (acc ++ ps.map (·.2)) := by
+  induction ps generalizing acc with
+  | nil => rw [snapByRecordLoop]; simp [encSnapRecs, pure, Except.pure]
+  | cons p rest ih =>
+    obtain ⟨rec, r⟩ := p
+    obtain ⟨hr, hid, hst, hl1, hl2, hs, hnz, hsev, hfu, hfa, hex⟩ := h (rec, r) (by simp)
+    simp only at hr hid hst hl1 hl2 hs hnz hsev hfu hfa hex
+    have hn0 : UInt8.ofNat r.snaps.length ≠ 0 := by
+      intro h0
+      have := congrArg UInt8.toNat h0
+      rw [toNat_ofNat_lt hl2] at this
+      have : r.snaps.length = 0 := this
+      omega
+    -- the encoded record, spelled out
+    have henc : encSnapRecs c.didSize ((rec, r) :: rest) =
+        UInt8.ofNat rec :: (toBE 3 r.id ++ UInt8.ofNat r.status :: UInt8.ofNat r.snaps.length :: (encSnapDids c.didSize r.snaps ++ encSnapRecs c.didSize rest)) := by
+      simp [encSnapRecs, encSnapRec]
+    have hge := encSnapDids_length_ge c.didSize r.snaps hl1
+    rw [henc, snapByRecordLoop]
+    have t3 : (toBE 3 r.id).length = 3 := by simp
+    have hlen0 : ¬ (UInt8.ofNat rec :: (toBE 3 r.id ++ UInt8.ofNat r.status :: UInt8.ofNat r.snaps.length :: (encSnapDids c.didSize r.snaps ++ encSnapRecs c.didSize rest))).length = 0 := by simp
+    have haz : allZero (UInt8.ofNat rec :: (toBE 3 r.id ++ UInt8.ofNat r.status :: UInt8.ofNat r.snaps.length :: (encSnapDids c.didSize r.snaps ++ encSnapRecs c.didSize rest))) = false := by
+      simp [allZero, hn0]
+    have haz1 : allZero ((UInt8.ofNat rec :: (toBE 3 r.id ++ UInt8.ofNat r.status :: UInt8.ofNat r.snaps.length :: (encSnapDids c.didSize r.snaps ++ encSnapRecs c.didSize rest))).drop 1) = false := by
+      simp [allZero, hn0]
+    have hlen1 : ((UInt8.ofNat rec :: (toBE 3 r.id ++ UInt8.ofNat r.status :: UInt8.ofNat r.snaps.length :: (encSnapDids c.didSize r.snaps ++ encSnapRecs c.didSize rest))).length == 1) = false := by
+      simp
+    rw [dif_neg hlen0]
+    simp only [haz, Bool.false_and, Bool.false_eq_true, if_false, hlen1, haz1, Bool.and_false, Bool.or_self]
+    rw [dif_neg (by simp only [List.length_cons, List.length_append, t3]; omega), dif_neg (by simp only [List.length_cons, List.length_append, t3]; omega)]
+    have i0 : idx (UInt8.ofNat rec :: (toBE 3 r.id ++ UInt8.ofNat r.status :: UInt8.ofNat r.snaps.length :: (encSnapDids c.didSize r.snaps ++ encSnapRecs c.didSize rest))) 0 = .ok (UInt8.ofNat rec) := by
+      simp [idx, pure, Except.pure]
+    have i4 : idx (UInt8.ofNat rec :: (toBE 3 r.id ++ UInt8.ofNat r.status :: UInt8.ofNat r.snaps.length :: (encSnapDids c.didSize r.snaps ++ encSnapRecs c.didSize rest))) 4 = .ok (UInt8.ofNat r.status) := by
+      simp [idx, toBE, pure, Except.pure]
+    have i5 : idx (UInt8.ofNat rec :: (toBE 3 r.id ++ UInt8.ofNat r.status :: UInt8.ofNat r.snaps.length :: (encSnapDids c.didSize r.snaps ++ encSnapRecs c.didSize rest))) 5 = .ok (UInt8.ofNat r.snaps.length) := by
+      simp [idx, toBE, pure, Except.pure]
+    have hd6 : (UInt8.ofNat rec :: (toBE 3 r.id ++ UInt8.ofNat r.status :: UInt8.ofNat r.snaps.length :: (encSnapDids c.didSize r.snaps ++ encSnapRecs c.didSize rest))).drop 6 =
+        encSnapDids c.didSize r.snaps ++ encSnapRecs c.didSize rest := by simp [toBE]
+    have hd1 : be3 ((UInt8.ofNat rec :: (toBE 3 r.id ++ UInt8.ofNat r.status :: UInt8.ofNat r.snaps.length :: (encSnapDids c.didSize r.snaps ++ encSnapRecs c.didSize rest))).drop 1) = r.id := by
+      simp only [List.drop_succ_cons, List.drop_zero]; exact be3_toBE _ _ hid
+    have hnz' : (r.snaps.length == 0) = false := by simpa using (show r.snaps.length ≠ 0 by omega)
+    have hbody : ¬ (encSnapDids c.didSize r.snaps ++ encSnapRecs c.didSize rest).length < c.didSize := by simp; omega
+    have hbz : (c.tol && allZero (encSnapDids c.didSize r.snaps ++ encSnapRecs c.didSize rest)) = false := by
+      rcases hnz with h | h
+      · simp [h]
+      · rw [allZero_append, h]; simp
+    simp only [i0, i4, i5, bind, Except.bind, toNat_ofNat_lt hr, toNat_ofNat_lt hst, toNat_ofNat_lt hl2, hnz', Bool.false_eq_true, if_false, hd6, hbody, hbz,
+      snapDids_roundtrip c.dids c.didSize rec r.snaps (encSnapRecs c.didSize rest) [] hs, hd1]
+    have hshort : (encSnapRecs c.didSize rest).length <
+        (UInt8.ofNat rec :: (toBE 3 r.id ++ UInt8.ofNat r.status :: UInt8.ofNat r.snaps.length :: (encSnapDids c.didSize r.snaps ++ encSnapRecs c.didSize rest))).length := by
+      simp only [List.length_cons, List.length_append]; omega
+    rw [if_pos hshort, ih _ (fun p hp => h p (by simp [hp]))]
+    have : ({ id := r.id, status := r.status, snaps := [] ++ r.snaps } : DtcRec) = r := by cases r; simp_all
+    rw [this]; simp
+
+/-- **snapshot by record number (0x05)**: any number of DTC records, each with any number of identifiers -/
+theorem snapByRecord_roundtrip (c : DtcCfg) (e : UInt8) (ps : List (Nat × DtcRec)) (hk : 1 ≤ c.didSize ∧ c.didSize ≤ 8) (hne : ps ≠ [])
+    (h : ∀ p ∈ ps, SnapRecOk c p) :
+    snapByRecordInterpret c (e :: encSnapRecs c.didSize ps) = .ok { sfEcho := e.toNat, count := ps.length, dtcs := ps.map (·.2) } := by
+  simp only [snapByRecordInterpret, bind_ok, guardPy_ok, pure_ok]
+  have hlen : 1 ≤ (encSnapRecs c.didSize ps).length := by
+    cases ps with
+    | nil => exact absurd rfl hne
+    | cons p rest => simp [encSnapRecs, encSnapRec]
+  refine ⟨e, idx_cons0' _ _, (), (by simp; omega), (), (by simp; omega), ps.map (·.2), ?_, by simp⟩
+  simpa using snapByRecord_loop_roundtrip c ps [] h
+
+/-! ### extended data by record number (sub-function 16): one record per DTC -/
+
+/-- DTC, status, the data of the requested record -/
+def encExtRec (r : DtcRec) : Bytes := toBE 3 r.id ++ [UInt8.ofNat r.status] ++ (r.ext.head?.map (·.2)).getD []
+
+def encExtRecs : List DtcRec → Bytes
+  | [] => []
+  | r :: rest => encExtRec r ++ encExtRecs rest
+
+def ExtRecOk (c : DtcCfg) (rec : Nat) (r : DtcRec) : Prop :=
+  r.id < 2 ^ 24 ∧ r.status < 256 ∧ (∃ data, r.ext = [(rec, data)] ∧ extSizeFor c.ext r.id = .ok data.length) ∧
+  allZero (encExtRec r) = false ∧ r.severity = 0 ∧ r.funit = none ∧ r.fault = none ∧ r.snaps = []
+
+theorem extByRecord_loop_roundtrip (c : DtcCfg) (rec : Nat) (rs : List DtcRec) (seen : List Nat) (acc : List DtcRec)
+    (h : ∀ r ∈ rs, ExtRecOk c rec r) (hnd : (seen ++ rs.map (·.id)).Nodup) :
+    extByRecordLoop c rec (encExtRecs rs) seen acc = .ok (acc ++ rs) := by
+  induction rs generalizing seen acc with
+  | nil => rw [extByRecordLoop]; simp [encExtRecs, pure, Except.pure]
+  | cons r rest ih =>
+    obtain ⟨hid, hst, ⟨data, hext, hsz⟩, hnz, hsev, hfu, hfa, hsn⟩ := h r (by simp)
+    have henc : encExtRecs (r :: rest) = toBE 3 r.id ++ (UInt8.ofNat r.status :: (data ++ encExtRecs rest)) := by
+      simp [encExtRecs, encExtRec, hext]
+    have hrec : encExtRec r = toBE 3 r.id ++ (UInt8.ofNat r.status :: data) := by simp [encExtRec, hext]
+    have haz : allZero (encExtRecs (r :: rest)) = false := by
+      have : encExtRecs (r :: rest) = encExtRec r ++ encExtRecs rest := rfl
+      rw [this, allZero_append, hnz]; rfl
+    rw [extByRecordLoop]
+    have hlen0 : ¬ (encExtRecs (r :: rest)).length = 0 := by rw [henc]; simp
+    rw [dif_neg hlen0]
+    simp only [haz, Bool.false_and, Bool.false_eq_true, if_false]
+    have hlen4 : ¬ (encExtRecs (r :: rest)).length < 4 := by rw [henc]; simp; omega
+    rw [dif_neg hlen4]
+    have hbe : be3 (encExtRecs (r :: rest)) = r.id := by rw [henc]; exact be3_toBE _ _ hid
+    have hnot : seen.contains r.id = false := by
+      rw [List.map_cons] at hnd
+      have := (List.nodup_append.1 hnd).2.2
+      cases hc : seen.contains r.id with
+      | false => rfl
+      | true =>
+        exfalso
+        rw [List.contains_iff_mem] at hc
+        exact this r.id hc r.id (by simp) rfl
+    have i3 : idx (encExtRecs (r :: rest)) 3 = .ok (UInt8.ofNat r.status) := by rw [henc]; simp [idx, toBE, pure, Except.pure]
+    have hd4 : (encExtRecs (r :: rest)).drop 4 = data ++ encExtRecs rest := by rw [henc]; simp [toBE]
+    simp only [hbe, hnot, Bool.false_eq_true, if_false, i3, hsz, bind, Except.bind, hd4, toNat_ofNat_lt hst]
+    have h1 : ¬ (data ++ encExtRecs rest).length < data.length := by simp
+    rw [if_neg h1]
+    have h2 : (data ++ encExtRecs rest).take data.length = data := by simp
+    have h3 : (data ++ encExtRecs rest).drop data.length = encExtRecs rest := by simp
+    rw [h2, h3]
+    have hnd' : ((r.id :: seen) ++ rest.map (·.id)).Nodup := by
+      rw [List.map_cons] at hnd
+      obtain ⟨n1, n2, n3⟩ := List.nodup_append.1 hnd
+      obtain ⟨m1, m2⟩ := List.nodup_cons.1 n2
+      rw [List.cons_append, List.nodup_cons]
+      refine ⟨?_, List.nodup_append.2 ⟨n1, m2, fun a ha b hb => n3 a ha b (List.mem_cons_of_mem _ hb)⟩⟩
+      intro hm
+      rcases List.mem_append.1 hm with hm | hm
+      · exact n3 r.id hm r.id (by simp) rfl
+      · exact m1 hm
+    rw [ih _ _ (fun x hx => h x (by simp [hx])) hnd']
+    have : ({ id := r.id, status := r.status, ext := [(rec, data)] } : DtcRec) = r := by cases r; simp_all
+    rw [this]; simp
+
+/-- **extended data by record number (0x16)**: any number of DTCs (pairwise distinct), each with the data of the requested record -/
+theorem extByRecord_roundtrip (c : DtcCfg) (e : UInt8) (rec : Nat) (rs : List DtcRec) (hrec : rec ≤ 0xEF) (hcfg : checkExtSize c.ext = .ok ())
+    (h : ∀ r ∈ rs, ExtRecOk c rec r) (hnd : (rs.map (·.id)).Nodup) :
+    extByRecordInterpret c (e :: UInt8.ofNat rec :: encExtRecs rs) = .ok { sfEcho := e.toNat, count := rs.length, dtcs := rs } := by
+  simp only [extByRecordInterpret, bind_ok, guardPy_ok, pure_ok]
+  have hr : (UInt8.ofNat rec).toNat = rec := toNat_ofNat_lt (by omega)
+  refine ⟨e, idx_cons0' _ _, (), hcfg, (), by simp, UInt8.ofNat rec, idx_cons1' _ _ _, (), (by rw [hr]; simp; omega), rs, ?_, rfl⟩
+  rw [hr]
+  simpa using extByRecord_loop_roundtrip c rec rs [] [] h (by simpa using hnd)
+
+/-! ### RequestFileTransfer: every mode of operation -/
+
+theorem readUIntAt_mid (pre rest : Bytes) (n v : Nat) (hv : v < 256 ^ n) : readUIntAt (pre ++ toBE n v ++ rest) pre.length n = .ok v := by
+  unfold readUIntAt
+  have hle : pre.length + n ≤ (pre ++ toBE n v ++ rest).length := by simp
+  rw [if_pos hle]
+  have : ((pre ++ toBE n v ++ rest).drop pre.length).take n = toBE n v := by
+    rw [List.append_assoc, List.drop_left', List.take_append_of_le_length (by simp)]
+    exact List.take_of_length_le (by simp)
+    rfl
+  rw [this, fromBE_toBE_of_lt hv]; rfl
+
+/-- `[moop, lw] ++ maxNumberOfBlockLength on lw bytes ++ [dataFormatIdentifier]` -/
+def encRftHead (moop lw ml dfi : Nat) : Bytes := [UInt8.ofNat moop, UInt8.ofNat lw] ++ toBE lw ml ++ [UInt8.ofNat dfi]
+
+theorem rftMaxLen_enc (moop lw ml : Nat) (tail : Bytes) (hm : rftHasLfid moop = true) (hlw : 1 ≤ lw ∧ lw ≤ 8) (hml : ml < 256 ^ lw) (m : UInt8) :
+    rftMaxLen moop (m :: UInt8.ofNat lw :: (toBE lw ml ++ tail)) = .ok (some ml, 2 + lw) := by
+  have hl : (UInt8.ofNat lw).toNat = lw := toNat_ofNat_lt (by omega)
+  simp only [rftMaxLen, hm, if_true, bind_ok, guardPy_ok, pure_ok]
+  refine ⟨(), by simp, UInt8.ofNat lw, by simp [idx, pure, Except.pure], (), by rw [hl]; simp; omega, (), by rw [hl]; simp; omega, (), (by rw [hl]; simp; omega), ml, ?_, by rw [hl]⟩
+  rw [hl]
+  have := readUIntAt_mid [m, UInt8.ofNat lw] tail lw ml hml
+  simpa using this
+
+/-- AddFile / ReplaceFile / ReadFile-less modes with only the head (1 = AddFile, 3 = ReplaceFile): max length and data format echo -/
+theorem rft_roundtrip_head (moop lw ml dfi : Nat) (tol : Bool) (hm : moop = 1 ∨ moop = 3) (hlw : 1 ≤ lw ∧ lw ≤ 8) (hml : ml < 256 ^ lw) (hd : dfi < 256) :
+    rftInterpret tol (encRftHead moop lw ml dfi) = .ok (.rft moop (some ml) (some dfi) none none none) := by
+  have hmo : (UInt8.ofNat moop).toNat = moop := toNat_ofNat_lt (by omega)
+  have hdf : (UInt8.ofNat dfi).toNat = dfi := toNat_ofNat_lt hd
+  have hlf : rftHasLfid moop = true := by rcases hm with h | h <;> subst h <;> decide
+  have henc : encRftHead moop lw ml dfi = UInt8.ofNat moop :: UInt8.ofNat lw :: (toBE lw ml ++ [UInt8.ofNat dfi]) := by simp [encRftHead]
+  have hidx : idx (encRftHead moop lw ml dfi) (2 + lw) = .ok (UInt8.ofNat dfi) := by
+    rw [henc]
+    have : (2 + lw) = ([UInt8.ofNat moop, UInt8.ofNat lw] ++ toBE lw ml).length := by simp; omega
+    simp only [idx]
+    rw [show UInt8.ofNat moop :: UInt8.ofNat lw :: (toBE lw ml ++ [UInt8.ofNat dfi]) = ([UInt8.ofNat moop, UInt8.ofNat lw] ++ toBE lw ml) ++ [UInt8.ofNat dfi] by simp, this,
+      List.getElem?_append_right (Nat.le_refl _)]
+    simp [pure, Except.pure]
+  simp only [rftInterpret, bind_ok, guardPy_ok, pure_ok]
+  refine ⟨(), by simp [encRftHead], UInt8.ofNat moop, by simp [encRftHead, idx, pure, Except.pure], (some ml, 2 + lw), ?_, (some dfi, 2 + lw + 1), ?_, (none, none, 2 + lw + 1), ?_,
+    (none, 2 + lw + 1), ?_, (), ?_, ?_⟩
+  · rw [hmo, henc]; exact rftMaxLen_enc moop lw ml _ hlf hlw hml _
+  · rw [hmo]
+    simp only [rftDfiEcho, hlf, if_true, bind_ok, guardPy_ok, pure_ok]
+    refine ⟨(), by simp [encRftHead]; omega, UInt8.ofNat dfi, hidx, (), ?_, by rw [hdf]⟩
+    have : (moop == 5) = false := by rcases hm with h | h <;> subst h <;> decide
+    simp [this]
+  · rw [hmo]
+    have : (moop == 4 || moop == 5) = false := by rcases hm with h | h <;> subst h <;> decide
+    simp [rftSizes, this, pure, Except.pure]
+  · rw [hmo]
+    have : (moop == 6) = false := by rcases hm with h | h <;> subst h <;> decide
+    simp [rftFilePos, this, pure, Except.pure]
+  · simp [encRftHead]; omega
+  · rw [hmo]
+    have h4 : (moop == 4) = false := by rcases hm with h | h <;> subst h <;> decide
+    have h5 : (moop == 5) = false := by rcases hm with h | h <;> subst h <;> decide
+    simp [h4, h5]
+
+theorem rft_roundtrip_delete (tol : Bool) : rftInterpret tol [2] = .ok (.rft 2 none none none none none) := by cases tol <;> decide
+
+theorem idx_at_append (pre : Bytes) (b : UInt8) (rest : Bytes) : idx (pre ++ b :: rest) pre.length = .ok b := by
+  simp [idx, pure, Except.pure]
+
+theorem rft_head_split (moop lw ml dfi : Nat) (tail : Bytes) :
+    encRftHead moop lw ml dfi ++ tail = UInt8.ofNat moop :: UInt8.ofNat lw :: (toBE lw ml ++ (UInt8.ofNat dfi :: tail)) := by simp [encRftHead]
+
+theorem rft_head_pre (moop lw ml dfi : Nat) (tail : Bytes) :
+    encRftHead moop lw ml dfi ++ tail = ([UInt8.ofNat moop, UInt8.ofNat lw] ++ toBE lw ml) ++ (UInt8.ofNat dfi :: tail) := by simp [encRftHead]
+
+theorem rftDfi_enc (moop lw ml dfi : Nat) (tail : Bytes) (hlf : rftHasLfid moop = true) (hd : dfi < 256) (h5 : moop = 5 → dfi = 0) :
+    rftDfiEcho moop (encRftHead moop lw ml dfi ++ tail) (2 + lw) = .ok (some dfi, 2 + lw + 1) := by
+  have hdf : (UInt8.ofNat dfi).toNat = dfi := toNat_ofNat_lt hd
+  have hidx : idx (encRftHead moop lw ml dfi ++ tail) (2 + lw) = .ok (UInt8.ofNat dfi) := by
+    rw [rft_head_pre]
+    have : 2 + lw = ([UInt8.ofNat moop, UInt8.ofNat lw] ++ toBE lw ml).length := by simp; omega
+    rw [this]; exact idx_at_append _ _ _
+  simp only [rftDfiEcho, hlf, if_true, bind_ok, guardPy_ok, pure_ok]
+  refine ⟨(), by simp [encRftHead]; omega, UInt8.ofNat dfi, hidx, (), ?_, by rw [hdf]⟩
+  by_cases hm5 : moop = 5
+  · simp [hm5, hdf, h5 hm5]
+  · have : (moop == 5) = false := by simpa using hm5
+    simp [this]
+
+/-- ResumeFile (6): head, then the 8-byte file position -/
+theorem rft_roundtrip_resume (lw ml dfi fp : Nat) (tol : Bool) (hlw : 1 ≤ lw ∧ lw ≤ 8) (hml : ml < 256 ^ lw) (hd : dfi < 256) (hfp : fp < 256 ^ 8) :
+    rftInterpret tol (encRftHead 6 lw ml dfi ++ toBE 8 fp) = .ok (.rft 6 (some ml) (some dfi) none none (some fp)) := by
+  have hlf : rftHasLfid 6 = true := by decide
+  have h6 : (6 : UInt8).toNat = 6 := rfl
+  simp only [rftInterpret, bind_ok, guardPy_ok, pure_ok]
+  refine ⟨(), by simp [encRftHead], 6, by simp [encRftHead, idx, pure, Except.pure], (some ml, 2 + lw), ?_, (some dfi, 2 + lw + 1), ?_, (none, none, 2 + lw + 1), ?_,
+    (some fp, 2 + lw + 1 + 8), ?_, (), ?_, ?_⟩
+  · rw [h6, rft_head_split]; exact rftMaxLen_enc 6 lw ml _ hlf hlw hml _
+  · rw [h6]; exact rftDfi_enc 6 lw ml dfi _ hlf hd (by intro h; cases h)
+  · rw [h6]; simp [rftSizes, pure, Except.pure]
+  · rw [h6]
+    simp only [rftFilePos, show ((6 : Nat) == 6) = true by decide, if_true, bind_ok, guardPy_ok, pure_ok]
+    refine ⟨(), by simp [encRftHead]; omega, fp, ?_, rfl⟩
+    have := readUIntAt_mid (encRftHead 6 lw ml dfi) [] 8 fp hfp
+    rw [List.append_nil] at this
+    have hl : (encRftHead 6 lw ml dfi).length = 2 + lw + 1 := by simp [encRftHead]; omega
+    rw [hl] at this; exact this
+  · simp [encRftHead]; omega
+  · simp [h6]
+
+/-- ReadDir (5): head with dataFormatIdentifier 0, then a 2-byte length and the directory-info length on that many bytes -/
+theorem rft_roundtrip_readdir (lw ml sw di : Nat) (tol : Bool) (hlw : 1 ≤ lw ∧ lw ≤ 8) (hml : ml < 256 ^ lw) (hsw : 1 ≤ sw ∧ sw ≤ 8) (hdi : di < 256 ^ sw) :
+    rftInterpret tol (encRftHead 5 lw ml 0 ++ (toBE 2 sw ++ toBE sw di)) = .ok (.rft 5 (some ml) (some 0) none (some di) none) := by
+  have hlf : rftHasLfid 5 = true := by decide
+  have hl : (encRftHead 5 lw ml 0).length = 2 + lw + 1 := by simp [encRftHead]; omega
+  have h5 : (5 : UInt8).toNat = 5 := rfl
+  simp only [rftInterpret, bind_ok, guardPy_ok, pure_ok]
+  refine ⟨(), by simp [encRftHead], 5, by simp [encRftHead, idx, pure, Except.pure], (some ml, 2 + lw), ?_, (some 0, 2 + lw + 1), ?_, (some di, none, 2 + lw + 1 + 2 + sw), ?_,
+    (none, 2 + lw + 1 + 2 + sw), ?_, (), ?_, ?_⟩
+  · rw [h5, rft_head_split]; exact rftMaxLen_enc 5 lw ml _ hlf hlw hml _
+  · rw [h5]; exact rftDfi_enc 5 lw ml 0 _ hlf (by decide) (fun _ => rfl)
+  · rw [h5]
+    simp only [rftSizes, show ((5 : Nat) == 4) = false by decide, show ((5 : Nat) == 5) = true by decide, Bool.or_true, if_true, Bool.false_eq_true, if_false,
+      bind_ok, guardPy_ok, pure_ok]
+    have hu : unpackBE 2 (((encRftHead 5 lw ml 0 ++ (toBE 2 sw ++ toBE sw di)).drop (2 + lw + 1)).take 2) = .ok sw := by
+      rw [← hl, List.drop_left', List.take_append_of_le_length (by simp), List.take_of_length_le (by simp)]
+      simp [unpackBE, fromBE_toBE_of_lt (show sw < 256 ^ 2 by omega), pure, Except.pure]
+      rfl
+    refine ⟨(), (by simp [hl]), sw, hu, (), (by simp; omega), (), (by simp; omega), (), (by simp [hl]; omega), di, ?_, rfl⟩
+    have := readUIntAt_mid (encRftHead 5 lw ml 0 ++ toBE 2 sw) [] sw di hdi
+    simp only [List.append_nil, List.length_append, hl, toBE_length, List.append_assoc] at this
+    exact this
+  · rw [h5]; simp [rftFilePos, pure, Except.pure]
+  · simp [hl]; omega
+  · simp [h5]
+
+/-- ReadFile (4): head, a 2-byte length, then uncompressed and compressed size on that many bytes each -/
+theorem rft_roundtrip_readfile (lw ml dfi sw u cz : Nat) (tol : Bool) (hlw : 1 ≤ lw ∧ lw ≤ 8) (hml : ml < 256 ^ lw) (hd : dfi < 256)
+    (hsw : 1 ≤ sw ∧ sw ≤ 8) (hu' : u < 256 ^ sw) (hc : cz < 256 ^ sw) :
+    rftInterpret tol (encRftHead 4 lw ml dfi ++ (toBE 2 sw ++ toBE sw u ++ toBE sw cz)) = .ok (.rft 4 (some ml) (some dfi) (some (u, some cz)) none none) := by
+  have hlf : rftHasLfid 4 = true := by decide
+  have hl : (encRftHead 4 lw ml dfi).length = 2 + lw + 1 := by simp [encRftHead]; omega
+  have h4 : (4 : UInt8).toNat = 4 := rfl
+  simp only [rftInterpret, bind_ok, guardPy_ok, pure_ok]
+  refine ⟨(), by simp [encRftHead], 4, by simp [encRftHead, idx, pure, Except.pure], (some ml, 2 + lw), ?_, (some dfi, 2 + lw + 1), ?_, (some u, some cz, 2 + lw + 1 + 2 + sw + sw), ?_,
+    (none, 2 + lw + 1 + 2 + sw + sw), ?_, (), ?_, ?_⟩
+  · rw [h4, rft_head_split]; exact rftMaxLen_enc 4 lw ml _ hlf hlw hml _
+  · rw [h4]; exact rftDfi_enc 4 lw ml dfi _ hlf hd (by intro h; cases h)
+  · rw [h4]
+    simp only [rftSizes, show ((4 : Nat) == 4) = true by decide, Bool.true_or, if_true, bind_ok, guardPy_ok, pure_ok]
+    have hu : unpackBE 2 (((encRftHead 4 lw ml dfi ++ (toBE 2 sw ++ toBE sw u ++ toBE sw cz)).drop (2 + lw + 1)).take 2) = .ok sw := by
+      rw [← hl, List.drop_left', List.append_assoc, List.take_append_of_le_length (by simp), List.take_of_length_le (by simp)]
+      simp [unpackBE, fromBE_toBE_of_lt (show sw < 256 ^ 2 by omega), pure, Except.pure]
+      rfl
+    refine ⟨(), (by simp [hl]), sw, hu, (), (by simp; omega), (), (by simp; omega), (), (by simp [hl]; omega), u, ?_, (), (by simp [hl]; omega), cz, ?_, rfl⟩
+    · have := readUIntAt_mid (encRftHead 4 lw ml dfi ++ toBE 2 sw) (toBE sw cz) sw u hu'
+      simp only [List.length_append, hl, toBE_length, List.append_assoc] at this
+      rw [List.append_assoc]
+      exact this
+    · have := readUIntAt_mid (encRftHead 4 lw ml dfi ++ toBE 2 sw ++ toBE sw u) [] sw cz hc
+      simp only [List.append_nil, List.length_append, hl, toBE_length, List.append_assoc] at this
+      rw [show 2 + lw + 1 + 2 + sw = 2 + lw + 1 + (2 + sw) by omega, List.append_assoc]
+      exact this
+  · rw [h4]; simp [rftFilePos, pure, Except.pure]
+  · simp [hl]; omega
+  · simp [h4]
+
 /-! ### non-vacuity -/
 example : RecOk false { id := 0x123456, status := 0x20 } ∧ recNonZero false true { id := 0x123456, status := 0x20 } := by
   refine ⟨⟨by decide, by decide, rfl, rfl, rfl, by simp⟩, by unfold recNonZero; decide⟩
@@ -420,6 +861,8 @@ example : DidsOk { entries := [(0x1234, some 2), (0xEEEE, none)] } true [(0x1234
   · intro n h; cases h
   · intro _; rfl
 example : ExtOk 2 (5, [0xAA, 0xBB]) := ⟨by decide, by decide, rfl⟩
+example : SnapOk (some { entries := [(0x1234, some 2)] }) 2 7 { record := 7, did := some 0x1234, raw := [1, 2] } :=
+  ⟨rfl, 0x1234, rfl, by decide, { entries := [(0x1234, some 2)] }, rfl, rfl⟩
 example : xferInterpret (encMaxLen 8 (2 ^ 64 - 1)) = .ok (.xfer (2 ^ 64 - 1)) := xfer_roundtrip 8 _ (by decide) (by decide)
 
 end Uds.Props.C02
